@@ -3,9 +3,11 @@ package main
 import (
 	"bufio"
 	"bytes"
+	"encoding/hex"
 	"encoding/json"
 	"fmt"
 	"io"
+	"log"
 	"os"
 	"os/exec"
 	"path/filepath"
@@ -24,6 +26,10 @@ import (
 // Goexit and panics are observed in-process; the default fatal action (a real os.Exit) and the
 // default panic are observed from outside a child process whose IO leaves write through a
 // BufferedWriteSyncer into files that the parent reads afterwards.
+// Every call also has a message dimension (c06call.A/V/T): how the arguments are shaped, which
+// std-log constructor and print function is used, and the text - empty, blank, padded, multi-line,
+// random.  The message the arguments amount to is computed with fmt / bytes.TrimSpace as oracles and
+// shipped in the case; the observed panic value is shipped in the observation.
 // Wire format: see coq/theories/C06/Model.v.
 
 type c06method struct{ Recv, Kind, Suffix int }
@@ -123,9 +129,130 @@ func (h c06hook) sx() SX {
 	return L(I(h.Kind))
 }
 
+// A call: method, level, and how its arguments are built from a text (the message dimension).
+//
+//	A (argument shape): 0 = the text as the one string argument, 1 = as few arguments as the
+//	   method takes (none for the variadic ones, only the template for *f, only the message for *w
+//	   and for Logger), 2 = mixed arguments (the text, an int and a nil)
+//	V (std-log bridge only): bit 0 = RedirectStdLog(At) + the package-level functions of log instead
+//	   of NewStdLog(At); bits 1-2 = 0 Print, 1 Println, 2 Printf, 3 a direct Write to Writer()
+//	T  the text (may be empty, blank, padded, multi-line, arbitrary bytes)
+//
+// The zero value of A/V with T == nil is the historical call with c06msg.
 type c06call struct {
 	M c06method
 	L int8
+	A int
+	V int
+	T []byte
+}
+
+func (cl c06call) text() string {
+	if cl.T == nil {
+		return c06msg
+	}
+	return string(cl.T)
+}
+
+// the arguments behind the level (variadic part), and for the *f methods the template in front
+func (cl c06call) args() []interface{} {
+	t := cl.text()
+	formatted := cl.M.Suffix == 1 || (cl.M.Recv == 4 && cl.V>>1 == 2)
+	switch {
+	case cl.M.Recv == 0: // Logger: msg, fields...
+		switch cl.A {
+		case 1:
+			return []interface{}{t}
+		case 2:
+			return []interface{}{t, zap.Int("f", 1), zap.Any("n", nil)}
+		}
+		return []interface{}{t, zap.Int("f", 1)}
+	case cl.M.Recv == 1 && cl.M.Suffix == 2: // SugaredLogger.*w: msg, keysAndValues...
+		switch cl.A {
+		case 1:
+			return []interface{}{t}
+		case 2:
+			return []interface{}{t, "k", nil, zap.Int("f", 1)}
+		}
+		return []interface{}{t, "k", 1}
+	case formatted:
+		switch cl.A {
+		case 1:
+			return []interface{}{t} // the text is the template, no arguments
+		case 2:
+			return []interface{}{"%v %v %v", t, 7, nil}
+		}
+		return []interface{}{"%s", t}
+	}
+	switch cl.A {
+	case 1:
+		return []interface{}{}
+	case 2:
+		return []interface{}{t, 7, nil}
+	}
+	return []interface{}{t}
+}
+
+// the message the arguments amount to, by the documented semantics of each front end, with the
+// standard library (fmt, bytes.TrimSpace) as the oracle
+func (cl c06call) message() string {
+	a := cl.args()
+	sprint := func(a []interface{}) string { // SugaredLogger.X(args...): getMessage("", args)
+		if len(a) == 0 {
+			return ""
+		}
+		if len(a) == 1 {
+			if s, ok := a[0].(string); ok {
+				return s
+			}
+		}
+		return fmt.Sprint(a...)
+	}
+	sprintf := func(a []interface{}) string { // SugaredLogger.Xf(template, args...)
+		if len(a) == 1 {
+			return a[0].(string)
+		}
+		if a[0].(string) == "" {
+			return sprint(a[1:])
+		}
+		return fmt.Sprintf(a[0].(string), a[1:]...)
+	}
+	sprintln := func(a []interface{}) string {
+		s := fmt.Sprintln(a...)
+		return s[:len(s)-1]
+	}
+	switch cl.M.Recv {
+	case 0:
+		return a[0].(string)
+	case 1, 2:
+		switch cl.M.Suffix {
+		case 1:
+			return sprintf(a)
+		case 2:
+			return a[0].(string)
+		case 3:
+			return sprintln(a)
+		}
+		return sprint(a)
+	case 4:
+		var line string
+		switch cl.V >> 1 {
+		case 0:
+			line = fmt.Sprint(a...)
+		case 1:
+			line = fmt.Sprintln(a...)
+		case 2:
+			line = fmt.Sprintf(a[0].(string), a[1:]...)
+		default:
+			line = cl.text()
+		}
+		return string(bytes.TrimSpace([]byte(line)))
+	}
+	return cl.text()
+}
+
+func (cl c06call) sx() SX {
+	return L(I(cl.M.Recv), I(cl.M.Kind), I(cl.M.Suffix), I(int(cl.L)), Str(cl.message()), L(I(cl.A), I(cl.V), Str(cl.text())))
 }
 
 type c06case struct {
@@ -192,7 +319,7 @@ func (cs *c06case) input() SX {
 	}
 	calls := make([]SX, len(cs.Calls))
 	for i, cl := range cs.Calls {
-		calls[i] = L(I(cl.M.Recv), I(cl.M.Kind), I(cl.M.Suffix), I(int(cl.L)))
+		calls[i] = cl.sx()
 	}
 	return L(fromJ(cs.Tree).sx(), L(cells...), Bool(cs.Dev), cs.OnPanic.sx(), cs.OnFatal.sx(), Bool(cs.Child), L(calls...))
 }
@@ -253,35 +380,30 @@ func c06hookOpt(h c06hook, fatal bool, variant int, custom func(int)) []zap.Opti
 
 const c06msg = "the final message"
 
-// invoke method m at level l by name through reflection
-func c06invoke(lg *zap.Logger, m c06method, l zapcore.Level) {
+// invoke the call's method at its level by name through reflection
+func c06invoke(lg *zap.Logger, cl c06call) {
+	m, l := cl.M, zapcore.Level(cl.L)
 	name := m.name()
 	var recv reflect.Value
-	var args []interface{}
+	args := cl.args()
 	switch m.Recv {
 	case 0:
 		recv = reflect.ValueOf(lg)
 		switch m.Kind {
 		case 0:
-			args = []interface{}{l, c06msg, zap.Int("f", 1)}
+			args = append([]interface{}{l}, args...)
 		case 8:
-			if ce := lg.Check(l, c06msg); ce != nil {
-				ce.Write(zap.Int("f", 1))
+			if ce := lg.Check(l, args[0].(string)); ce != nil {
+				fields := make([]zap.Field, len(args)-1)
+				for i, f := range args[1:] {
+					fields[i] = f.(zap.Field)
+				}
+				ce.Write(fields...)
 			}
 			return
-		default:
-			args = []interface{}{c06msg, zap.Int("f", 1)}
 		}
 	case 1:
 		recv = reflect.ValueOf(lg.Sugar())
-		switch m.Suffix {
-		case 0, 3:
-			args = []interface{}{c06msg}
-		case 1:
-			args = []interface{}{"%s", c06msg}
-		case 2:
-			args = []interface{}{c06msg, "k", 1}
-		}
 		if m.Kind == 0 {
 			args = append([]interface{}{l}, args...)
 		}
@@ -293,25 +415,12 @@ func c06invoke(lg *zap.Logger, m c06method, l zapcore.Level) {
 			g = zapgrpc.NewLogger(lg)
 		}
 		recv = reflect.ValueOf(g)
-		if m.Suffix == 1 {
-			args = []interface{}{"%s", c06msg}
-		} else {
-			args = []interface{}{c06msg}
-		}
 	case 3:
 		w := &zapio.Writer{Log: lg, Level: l}
-		io.WriteString(w, c06msg+"\n")
+		io.WriteString(w, cl.text()+"\n")
 		return
 	case 4:
-		if m.Kind == 0 {
-			std, err := zap.NewStdLogAt(lg, l)
-			if err != nil {
-				panic(err)
-			}
-			std.Print(c06msg)
-		} else {
-			zap.NewStdLog(lg).Print(c06msg)
-		}
+		c06stdlog(lg, cl, args)
 		return
 	}
 	meth := recv.MethodByName(name)
@@ -320,9 +429,52 @@ func c06invoke(lg *zap.Logger, m c06method, l zapcore.Level) {
 	}
 	vals := make([]reflect.Value, len(args))
 	for i, a := range args {
-		vals[i] = reflect.ValueOf(a)
+		if a == nil {
+			vals[i] = reflect.Zero(meth.Type().In(meth.Type().NumIn() - 1).Elem()) // a nil interface{} argument
+		} else {
+			vals[i] = reflect.ValueOf(a)
+		}
 	}
 	meth.Call(vals)
+}
+
+// the std-log bridge: all four constructors (NewStdLog, NewStdLogAt, RedirectStdLog,
+// RedirectStdLogAt), written to through Print / Println / Printf / the io.Writer itself
+func c06stdlog(lg *zap.Logger, cl c06call, args []interface{}) {
+	l := zapcore.Level(cl.L)
+	var std *log.Logger
+	if cl.V&1 == 0 {
+		if cl.M.Kind == 0 {
+			var err error
+			if std, err = zap.NewStdLogAt(lg, l); err != nil {
+				panic(err)
+			}
+		} else {
+			std = zap.NewStdLog(lg)
+		}
+	} else {
+		var undo func()
+		if cl.M.Kind == 0 {
+			var err error
+			if undo, err = zap.RedirectStdLogAt(lg, l); err != nil {
+				panic(err)
+			}
+		} else {
+			undo = zap.RedirectStdLog(lg)
+		}
+		defer undo() // also on a panic or a Goexit
+		std = log.Default()
+	}
+	switch cl.V >> 1 {
+	case 0:
+		std.Print(args...)
+	case 1:
+		std.Println(args...)
+	case 2:
+		std.Printf(args[0].(string), args[1:]...)
+	default:
+		std.Writer().Write([]byte(cl.text()))
+	}
 }
 
 type c06outcome struct {
@@ -366,7 +518,7 @@ func c06run(cs *c06case) SX {
 	for i, cl := range cs.Calls {
 		env.events = env.events[:0]
 		customRan = -1
-		o := c06guarded(func() { c06invoke(lg, cl.M, zapcore.Level(cl.L)) })
+		o := c06guarded(func() { c06invoke(lg, cl) })
 		evs := make([]SX, len(env.events))
 		for k, e := range env.events {
 			evs[k] = L(I([]int{0, 2, 1}[e.kind]), I(e.id))
@@ -378,10 +530,10 @@ func c06run(cs *c06case) SX {
 		case o.returned:
 			term = L()
 		case o.panicked != nil:
-			if s, ok := o.panicked.(string); ok && s == c06msg {
-				term = L(I(0))
+			if s, ok := o.panicked.(string); ok {
+				term = L(I(0), Str(s)) // the oracle compares the value with the message
 			} else {
-				term = L(I(9), Str(fmt.Sprint(o.panicked))) // a panic that does not carry the message
+				term = L(I(9), Str(fmt.Sprint(o.panicked))) // a panic whose value is not a string
 			}
 		default:
 			term = L(I(2))
@@ -436,11 +588,14 @@ func c06child(*Ctx) {
 		returned := false
 		defer func() {
 			if r := recover(); r != nil {
+				if v, ok := r.(string); ok {
+					fmt.Fprintf(evf, "P %x\n", v) // the value, exactly (stderr shows it only in printed form)
+				}
 				panic(r) // a panic takes the process down (observed by the parent from outside)
 			}
 			done <- returned // returned normally, or runtime.Goexit
 		}()
-		c06invoke(lg, cl.M, zapcore.Level(cl.L))
+		c06invoke(lg, cl)
 		returned = true
 	}()
 	if <-done {
@@ -480,11 +635,15 @@ func c06runChild(c *Ctx, cs *c06case) (SX, error) {
 	var evs []SX
 	var term SX = L()
 	returned := false
+	panicValue, havePanicValue := "", false
 	for _, line := range strings.Split(strings.TrimSpace(string(evb)), "\n") {
 		var a, b, k int
 		switch {
 		case line == "R":
 			returned = true
+		case strings.HasPrefix(line, "P"):
+			v, _ := hex.DecodeString(strings.TrimSpace(line[1:]))
+			panicValue, havePanicValue = string(v), true
 		case line == "T 2":
 			term = L(I(2))
 		case strings.HasPrefix(line, "T 3"):
@@ -498,8 +657,9 @@ func c06runChild(c *Ctx, cs *c06case) (SX, error) {
 	switch {
 	case status == 1 && !returned:
 		term = L(I(1))
-	case status == 2 && strings.Contains(stderr.String(), "panic: "+c06msg):
-		term = L(I(0))
+	case status == 2 && havePanicValue && strings.Contains(stderr.String(), "panic: "+strings.SplitN(panicValue, "\n", 2)[0]):
+		// the process died of an unrecovered panic (status 2, the runtime's report on stderr)
+		term = L(I(0), Str(panicValue))
 	case status != 0:
 		term = L(I(9), Str(fmt.Sprintf("exit status %d: %.200s", status, stderr.String())))
 	}
@@ -633,20 +793,112 @@ func c06emitItem(c *Ctx, it c06item, inproc map[int]SX, idx int) {
 	c.Emit(cs.input(), obs, meta)
 }
 
-// every (method, level) pair worth asking: each method at every level it is fixed to, the
-// parameterised ones at all valid levels plus some out-of-range values
-func c06allCalls(table []c06method, cs *c06case, inProcess bool) []c06call {
+// the message dimension: texts that the front ends format / trim into empty, blank, padded,
+// multi-line and odd messages
+var c06texts = []string{
+	c06msg,
+	"",                      // the empty message
+	" ",                     // blank before trimming
+	"\n",                    // a bare newline (log.Println() produces it)
+	" \t\r\n\v\f ",          // ASCII white space only
+	"\u00a0\u2003\u0085",    // Unicode white space only (bytes.TrimSpace removes it)
+	"  padded message \n\n", // trimmed by the bridge, kept by the others
+	"two\nlines",
+	"%d 100%",  // verbs without arguments
+	"\x00\xff", // not text
+}
+
+// the (argument shape, via) variants a method has
+func c06variants(m c06method) [][2]int {
+	if m.Recv == 3 {
+		return [][2]int{{0, 0}}
+	}
+	var out [][2]int
+	if m.Recv == 4 {
+		for _, redirect := range []int{0, 1} {
+			for fn := 0; fn < 3; fn++ {
+				for a := 0; a < 3; a++ {
+					out = append(out, [2]int{a, fn<<1 | redirect})
+				}
+			}
+			out = append(out, [2]int{0, 3<<1 | redirect})
+		}
+		return out
+	}
+	return [][2]int{{0, 0}, {1, 0}, {2, 0}}
+}
+
+// every (text, argument shape, via) combination of a method: the message space of one call
+func c06messages(m c06method) []c06call {
 	var out []c06call
-	for _, m := range table {
+	for _, av := range c06variants(m) {
+		for _, t := range c06texts {
+			if m.Recv == 3 && t != c06msg {
+				continue // zapio.Writer splits its input into lines: a different number of entries
+			}
+			out = append(out, c06call{M: m, A: av[0], V: av[1], T: []byte(t)})
+		}
+	}
+	return out
+}
+
+// a random text: mostly white space and a few other bytes, so that blank ones are frequent
+func c06randText(r *RNG) []byte {
+	n := r.Intn(6)
+	if r.Chance(20) {
+		n = r.Range(6, 40)
+	}
+	const ws = " \t\n\r\v\f"
+	blank := r.Chance(50)
+	b := make([]byte, n)
+	for i := range b {
+		switch {
+		case blank || r.Chance(40):
+			b[i] = ws[r.Intn(len(ws))]
+		case r.Chance(80):
+			b[i] = byte(r.Range(0x21, 0x7e))
+		default:
+			b[i] = byte(r.Intn(256))
+		}
+	}
+	return b
+}
+
+// every (method, level) pair worth asking: each method at every level it is fixed to, the
+// parameterised ones at all valid levels plus some out-of-range values; each pair with the
+// historical message and with `rot`-rotated members of its message space (all of them when
+// all is set), so that over the directed cases every (method, level, message) is asked
+func c06allCalls(table []c06method, cs *c06case, inProcess bool, rot int, all bool) []c06call {
+	var out []c06call
+	for mi, m := range table {
 		lv := m.levels()
 		if lv == nil {
 			lv = []int8{-1, 0, 1, 2, 3, 4, 5, 6, -2, 127, -128}
 		}
-		for _, l := range lv {
+		msgs := c06messages(m)
+		for li, l := range lv {
 			if inProcess && cs.expectExit(l) {
 				continue
 			}
-			out = append(out, c06call{m, l})
+			out = append(out, c06call{M: m, L: l, T: []byte(c06msg)})
+			if all || l >= 3 && l <= 5 {
+				// DPanic, Panic, Fatal: the whole message space, in every case
+				for _, mc := range msgs[1:] {
+					mc.L = l
+					out = append(out, mc)
+				}
+				continue
+			}
+			// elsewhere a window of the message space, moving with the case, the method and the level
+			window := 3
+			if m.Recv == 4 {
+				window = 8
+			}
+			for k := 0; k < window; k++ {
+				mc := msgs[1+(rot*window+k+7*mi+3*li)%(len(msgs)-1)]
+				mc.L = l
+				out = append(out, mc)
+			}
 		}
 	}
 	// zapio.Writer at the levels that are not terminal for this logger (the terminal ones run alone)
@@ -654,7 +906,7 @@ func c06allCalls(table []c06method, cs *c06case, inProcess bool) []c06call {
 		if l == 3 && cs.Dev {
 			continue
 		}
-		out = append(out, c06call{c06zapio, l})
+		out = append(out, c06call{M: c06zapio, L: l, T: []byte(c06msg)})
 	}
 	return out
 }
@@ -707,7 +959,7 @@ func c06makePlan(c *Ctx, emitTable bool) *c06plan {
 					hf.K = 9
 				}
 				cs := &c06case{Tree: toJ(sh.t), Cells: sh.cells, Dev: dev, OnPanic: hp, OnFatal: hf, Variant: (si + hi) % 2}
-				cs.Calls = c06allCalls(table, cs, true)
+				cs.Calls = c06allCalls(table, cs, true, len(plan.items), false)
 				plan.add(cs, "directed", "")
 			}
 		}
@@ -735,7 +987,7 @@ func c06makePlan(c *Ctx, emitTable bool) *c06plan {
 					variants = append(variants, 2, 3)
 				}
 				for _, v := range variants {
-					cs := &c06case{Tree: toJ(sh.t), Cells: sh.cells, Dev: true, Child: true, Variant: v % 2, Calls: []c06call{{m, l}}}
+					cs := &c06case{Tree: toJ(sh.t), Cells: sh.cells, Dev: true, Child: true, Variant: v % 2, Calls: []c06call{{M: m, L: l, T: []byte(c06msg)}}}
 					switch v {
 					case 1:
 						cs.OnFatal = c06hook{1, 0} // OnFatal(WriteThenNoop) must still exit
@@ -750,12 +1002,40 @@ func c06makePlan(c *Ctx, emitTable bool) *c06plan {
 			}
 		}
 	}
+	// child processes over the message space: every method x terminal level x argument shape / std-log
+	// constructor and print function x text, the compositions and the spelling of the hooks rotating
+	// (quick: the texts that end up empty, blank, padded or multi-line; thorough: all)
+	nchild := 0
+	for _, m := range table {
+		lv := m.levels()
+		if lv == nil {
+			lv = []int8{3, 4, 5}
+		}
+		for _, l := range lv {
+			if l < 3 {
+				continue
+			}
+			for _, mc := range c06messages(m)[1:] {
+				if t := string(mc.T); !c.Thorough && t != "" && t != "\n" && t != c06texts[4] && t != c06texts[6] && t != "two\nlines" {
+					continue
+				}
+				mc.L = l
+				sh := shapes[nchild%nshapes]
+				cs := &c06case{Tree: toJ(sh.t), Cells: sh.cells, Dev: nchild%5 != 4 || l != 3, Child: true, Variant: (nchild / nshapes) % 2, Calls: []c06call{mc}}
+				if (nchild/(2*nshapes))%3 == 1 {
+					cs.OnFatal, cs.OnPanic = c06hook{1, 0}, c06hook{1, 0}
+				}
+				nchild++
+				plan.add(cs, "child-message", "")
+			}
+		}
+	}
 	// zapio.Writer at terminal levels, alone: with the level disabled Writer.Write returns early and
 	// nothing terminates (known finding zapio-terminal-disabled; tagged exactly when disabled)
 	for _, sh := range shapes {
 		for _, l := range []int8{3, 4, 5} {
 			for _, child := range []bool{false, true} {
-				cs := &c06case{Tree: toJ(sh.t), Cells: sh.cells, Dev: true, Child: child, Calls: []c06call{{c06zapio, l}}}
+				cs := &c06case{Tree: toJ(sh.t), Cells: sh.cells, Dev: true, Child: child, Calls: []c06call{{M: c06zapio, L: l, T: []byte(c06msg)}}}
 				if !child {
 					cs.OnPanic, cs.OnFatal = c06hook{5, 7}, c06hook{5, 9}
 				}
@@ -788,11 +1068,21 @@ func c06makePlan(c *Ctx, emitTable bool) *c06plan {
 			return h
 		}
 		cs.OnPanic, cs.OnFatal = pick(11), pick(12)
-		all := c06allCalls(table, cs, true)
+		all := c06allCalls(table, cs, true, k, true)
 		for _, cl := range all {
-			if g.r.Chance(40) || cl.L >= 3 {
-				cs.Calls = append(cs.Calls, cl)
+			// the historical message always at the terminal levels and often elsewhere; the
+			// members of the message space sparsely, and some with a random text instead
+			def := cl.A == 0 && cl.V == 0 && string(cl.T) == c06msg
+			switch {
+			case def && (g.r.Chance(40) || cl.L >= 3):
+			case !def && g.r.Chance(3):
+				if cl.M.Recv != 3 && g.r.Chance(50) {
+					cl.T = c06randText(g.r)
+				}
+			default:
+				continue
 			}
+			cs.Calls = append(cs.Calls, cl)
 		}
 		plan.add(cs, "random", "")
 	}
